@@ -206,8 +206,16 @@ func vfC19Setup(c vfC19Case) (*vfC19World, error) {
 	var wg sync.WaitGroup
 	var ce, se error
 	wg.Add(2)
-	go func() { defer wg.Done(); _ = w.c.conn.SetDeadline(time.Now().Add(time.Minute)); ce = w.c.conn.Handshake() }()
-	go func() { defer wg.Done(); _ = w.s.conn.SetDeadline(time.Now().Add(time.Minute)); se = w.s.conn.Handshake() }()
+	go func() {
+		defer wg.Done()
+		_ = w.c.conn.SetDeadline(time.Now().Add(time.Minute))
+		ce = w.c.conn.Handshake()
+	}()
+	go func() {
+		defer wg.Done()
+		_ = w.s.conn.SetDeadline(time.Now().Add(time.Minute))
+		se = w.s.conn.Handshake()
+	}()
 	wg.Wait()
 	if ce != nil || se != nil {
 		return nil, fmt.Errorf("handshake: %v / %v", ce, se)
@@ -390,6 +398,29 @@ func vfC19Run(t *testing.T, res *vfResult, c vfC19Case) {
 			}
 		}
 		res.Count("post_export_round_trips", int64(2+round))
+		// observation (not judged here, see DESIGN.md 8.5): the serialised state carries no receive window, so a
+		// record the original Conn had already delivered is accepted again by the resumed one
+		if c.I+c.J > 0 {
+			var old *vfWire
+			for _, e := range w.n.LogSince(0)[:mark] {
+				if !e.Deliver && e.From == y.name {
+					if recs, ok := vfParseDatagram(e.Data, vfCIDLenOf(x.conn)); ok && len(recs) == 1 && recs[0].Epoch > 0 && (recs[0].Type == 23 || recs[0].Type == 25) {
+						old = e
+					}
+				}
+			}
+			if old != nil {
+				nb := len(x.snapshot())
+				w.n.Deliver(string(x.ep.addr), old.Data, y.ep.addr)
+				synctest.Wait()
+				time.Sleep(50 * time.Millisecond)
+				synctest.Wait()
+				res.Count("replays_across_export_injected", 1)
+				if len(x.snapshot()) > nb {
+					res.Count("replays_across_export_delivered_again", 1)
+				}
+			}
+		}
 		// record numbers: everything x emitted after the export is new and continues the sequence
 		pre := vfSeqsOf(w.n, x.name, 0, mark, cidY)
 		post := vfSeqsOf(w.n, x.name, mark, 1<<30, cidY)
